@@ -75,7 +75,8 @@ CHECKS['C04'] = dict(
          'number of discards before it, and the sequence number is the number of packets closed before it (mod 2^32; 0 '
          'with the feature off); for platforms with one buffer size, from any reachable state with an open packet the '
          'closing saves as content size exactly the end of the last record (or of the packet context), at most the packet size = '
-         'buffer size, and leaves the packet closed with at = packet_size (closing_saves_the_end_of_the_last_record). '
+         'buffer size, and leaves the packet closed with at = packet_size (closing_saves_the_end_of_the_last_record); the same '
+         'for every closing event of the log of every history (every_closing_saves_the_end_of_the_last_record). '
          'Not proved: the statement about the delivered bytes (magic, UUID, stream id, sizes read '
          'back at the reader offsets) - evaluated on the implementation on every delivered packet instead.',
     note='Trusted: as C03. Known finding F9.',
